@@ -560,6 +560,102 @@ def sequence_obligations(types, tier):
     return out
 
 
+def _scan_layout(text):
+    """(k, ws_before[], len[], ws_after[], first_byte[]) of a JSON array text, by a bracket / string aware scan"""
+    assert text[0] == "[" and text[-1] == "]"
+    i, n = 1, len(text)
+    items = []          # (start, end) of elements
+    depth, instr, esc, start = 0, False, False, None
+    while i < n - 1:
+        ch = text[i]
+        if start is None:
+            if ch in " \t\n\r" or ch == ",":
+                i += 1
+                continue
+            start = i
+        if instr:
+            if esc:
+                esc = False
+            elif ch == "\\":
+                esc = True
+            elif ch == '"':
+                instr = False
+        elif ch == '"':
+            instr = True
+        elif ch in "[{":
+            depth += 1
+        elif ch in "]}":
+            depth -= 1
+        nxt = text[i + 1] if i + 1 < n else ""
+        if not instr and depth == 0 and (nxt in " \t\n\r,]" ) and not (ch in " \t\n\r"):
+            # end of a value if the next char is a delimiter
+            items.append((start, i + 1))
+            start = None
+        i += 1
+    k = len(items)
+    wb, ln, wa, fb = [], [], [], []
+    pos = 1
+    for (s0, e0) in items:
+        wb.append(s0 - pos)
+        ln.append(e0 - s0)
+        j = e0
+        while text[j] in " \t\n\r":
+            j += 1
+        wa.append(j - e0)
+        fb.append(ord(text[s0]))
+        pos = j + 1
+    if k == 0:
+        wb = [n - 2]
+    return k, wb, ln, wa, fb
+
+
+def _py_accepts(ty, v):
+    return {"u64": isinstance(v, int) and not isinstance(v, bool) and v >= 0, "String": isinstance(v, str), "bool": isinstance(v, bool)}.get(ty, True)
+
+
+def validate(types):
+    """translator validation (not the deciding step): concrete texts and typed read sequences through the real code and through the encoding"""
+    import json as _json
+    texts = ['[1, "a" ,true]', "[]", "[ 1 ,2 ]", '["x"]', '[[1,2],{"a":[3]}, "s,]"]', "[null, 5]", "[7,8,9]", '[true,"q"]']
+    scripts = [[["next", "u64"], ["optional", "String"], ["next", "bool"], ["optional", "u64"]], [["optional", "u64"], ["optional", "u64"]], [["next", "String"], ["next", "u64"]],
+               [["next", "Value"], ["next", "Value"], ["next", "Value"], ["next", "Value"]]]
+    vectors = [{"text": t, "reads": sc} for t in texts for sc in scripts]
+
+    def predict(vec):
+        text, reads = vec["text"], vec["reads"]
+        elems = _json.loads(text)
+        k, wb, ln, wa, fb = _scan_layout(text)
+        if k != len(elems):
+            return {"kinds": None}
+        d = Drv(types, k)
+        lay = d.lay
+        pin = [lay.w[i] == wb[i] for i in range(max(k, 1))] + [lay.l[i] == ln[i] for i in range(k)] + [lay.v[i] == wa[i] for i in range(k)] + [lay.fb[i] == fb[i] for i in range(k)]
+        for j, (kd, ty) in enumerate(reads):
+            for i in range(k):
+                pin.append(z3.Bool(f"read{j}.accepts_elem{i}") == z3.BoolVal(_py_accepts(ty, elems[i]) or (kd != "next" and elems[i] is None)))
+        sts = [(pc + pin, seq) for pc, seq in d.start_states() if d.ex.feasible(pc + pin)]
+        if len(sts) != 1:
+            return {"kinds": f"{len(sts)} start states"}
+        pc, seq = sts[0]
+        kinds, pos = [], 0
+        for j, (kd, ty) in enumerate(reads):
+            outs = [(pc2, seq2, out) for pc2, seq2, out, _ in d.read(pc, seq, kd, j) if d.ex.feasible(pc2)]
+            if len(outs) != 1:
+                return {"kinds": f"{len(outs)} outcomes at read {j}"}
+            pc, seq, out = outs[0]
+            if out[0] == "ok":
+                m = re.search(r"value:elem(\d+)@", out[1])
+                i = int(m.group(1)) if m else -1
+                kinds.append("Absent" if (kd != "next" and 0 <= i < k and elems[i] is None) else "Val")
+            else:
+                kinds.append({"none": "Absent", "err": "Err", "panic": "Panic"}[out[0]])
+            if seq is None:
+                break
+        return {"kinds": kinds}
+    VALIDATION["sequence"] = R.validate_encoding("c16_sequence", vectors, predict, ["kinds"])
+    return VALIDATION["sequence"]
+
+
 def _invalid_params_code(types):
     b = R.find_body(types, r"^fn (\w+::)*invalid_params\(_1: impl ToString\)")
     ctx = P.make_ctx(types, extra_models=[])
@@ -639,6 +735,10 @@ def _one(types):
 def obligations(tier, seed):
     types = R.bodies("types")
     out = sequence_obligations(types, tier)
+    val = validate(types)
+    if val["disagreements"] or val.get("native_violations"):
+        out.append(R.Result(engine="mirsym", name="validation:sequence-encoding", kind="validation", status="encoder-disagrees-with-native",
+                            detail=str(val["disagreements"][:1] or f"{val['native_violations']} native violations on the validation vectors")[:400], bodies=[]))
     b, viol, reach, bad = _invalid_params_code(types)
     if bad or not reach:
         out.append(R.Result(engine="mirsym", name="kernel:invalid_params:code", kind="kernel", status="unsupported", detail=str(bad[:1])[:300], bodies=[b.name]))
